@@ -11,8 +11,10 @@ use scylla_cql_core::deserialize::value::{
     TupleTypeCheckErrorKind as DTupK, UdtIterator, UdtTypeCheckErrorKind as DUdtK, VectorIterator,
     VectorTypeCheckErrorKind as DVecK,
 };
-use scylla_cql_core::deserialize::TypeCheckError;
-use scylla_cql_core::frame::response::result::ColumnType;
+use scylla_cql_core::deserialize::result::{RawRowIterator, TypedRowIterator};
+use scylla_cql_core::deserialize::row::{BuiltinTypeCheckError as RowTE, BuiltinTypeCheckErrorKind as RowTK, DeserializeRow};
+use scylla_cql_core::deserialize::{FrameSlice, TypeCheckError};
+use scylla_cql_core::frame::response::result::{ColumnSpec, ColumnType};
 use scylla_cql_core::serialize::row::SerializedValues;
 use scylla_cql_core::serialize::value::SerializeValue;
 use scylla_cql_core::serialize::writers::{CellWriter, WrittenCellProof};
@@ -352,6 +354,11 @@ impl HasDesc for CqlDecimalBorrowed<'static> {
 impl HasDesc for &'static str {
     fn desc() -> Desc {
         Desc::un("Ref", Desc::leaf("str"))
+    }
+}
+impl HasDesc for Cow<'static, [u8]> {
+    fn desc() -> Desc {
+        Desc::un("Cow", Desc::leaf("SliceU8"))
     }
 }
 impl HasDesc for Cow<'static, str> {
@@ -804,7 +811,7 @@ pub fn registries() -> (Vec<SerEntry>, Vec<DeEntry>) {
         num_bigint_03::BigInt, num_bigint_04::BigInt, CqlValue);
     ser_list!(s; StrOf, SliceU8, ArrU8, VarintB, DecimalB, Unset, RefStr, BoxStr, ArcStr, CowStr, Sec08, SecBox10);
     de_list!(d; &'static [u8], CqlVarintBorrowed<'static>, CqlDecimalBorrowed<'static>, &'static str, Box<str>, Arc<str>,
-        Cow<'static, str>, Sec08, SecBox10, secrecy_10::SecretString, secrecy_10::SecretSlice<i32>,
+        Cow<'static, str>, Cow<'static, [u8]>, Option<Cow<'static, [u8]>>, Sec08, SecBox10, secrecy_10::SecretString, secrecy_10::SecretSlice<i32>,
         UdtIterator<'static, 'static>, FrameSliceWithMetadata<'static, 'static>, ());
     // Option / Vec / Box of every sized leaf
     both_wrap!(s, d; Option; bool, i8, i16, i32, i64, f32, f64, String, Counter, Vec<u8>, bytes::Bytes, IpAddr, uuid::Uuid,
@@ -876,4 +883,64 @@ pub fn registries() -> (Vec<SerEntry>, Vec<DeEntry>) {
     let mut seen = std::collections::HashSet::new();
     d.retain(|e| seen.insert(e.name.clone()));
     (s, d)
+}
+
+// ------------------------------------------------------------------ typed rows (the read side)
+
+pub struct RowEntry {
+    pub name: String,
+    pub desc: Desc,
+    /// TypedRowIterator::<R>::new over a RawRowIterator of `nrows` rows held by `data`:
+    /// `ok:<rows the iterator yields>` or the leaf of the row type-check error
+    pub new: fn(&[ColumnSpec<'static>], usize, &bytes::Bytes) -> String,
+}
+pub fn row_tck_leaf(e: &TypeCheckError) -> String {
+    if let Some(b) = e.downcast_ref::<RowTE>() {
+        return match &b.kind {
+            RowTK::WrongColumnCount { .. } => "WrongColumnCount".into(),
+            RowTK::ColumnTypeCheckFailed { column_index, err, .. } => format!("col{}:{}", column_index, tck_leaf(err)),
+            k => format!("OtherRow:{:?}", k).replace(' ', "_"),
+        };
+    }
+    format!("value:{}", tck_leaf(e))
+}
+fn row_fn<R>(specs: &[ColumnSpec<'static>], nrows: usize, data: &bytes::Bytes) -> String
+where
+    R: for<'f, 'm> DeserializeRow<'f, 'm>,
+{
+    let raw = RawRowIterator::new(nrows, specs, FrameSlice::new(data));
+    match TypedRowIterator::<R>::new(raw) {
+        Err(e) => format!("err:{}", row_tck_leaf(&e)),
+        // the rows are decoded (results dropped): no panic may come out of a checked iterator
+        Ok(it) => format!("ok:{:x}", it.count()),
+    }
+}
+fn row_entry<R: HasDesc + for<'f, 'm> DeserializeRow<'f, 'm>>() -> RowEntry {
+    let d = R::desc();
+    RowEntry { name: d.show(), desc: d, new: row_fn::<R> }
+}
+pub fn row_registry() -> Vec<RowEntry> {
+    let mut v: Vec<RowEntry> = vec![];
+    macro_rules! singles { ($($t:ty),* $(,)?) => { $( v.push(row_entry::<($t,)>()); )* }; }
+    singles!(i32, i64, String, bool, f64, Vec<u8>, uuid::Uuid, CqlVarint, CqlDate, IpAddr, Counter, CqlDuration, Option<i32>,
+        Vec<i32>, Vec<String>, BTreeSet<i32>, HashSet<String>, BTreeMap<i32, String>, (i32, String), CqlValue, Option<String>,
+        Box<i64>, MaybeEmpty<i32>, CqlTimeuuid, chrono::NaiveDate, num_bigint_04::BigInt);
+    macro_rules! pairs {
+        ($a:ty; $($b:ty),*) => { $( v.push(row_entry::<($a, $b)>()); )* };
+    }
+    pairs!(i32; i32, String, i64, Vec<u8>, Option<i32>, Vec<i32>, CqlValue, BTreeSet<i32>);
+    pairs!(String; i32, String, i64, Vec<u8>, Option<i32>, Vec<i32>, CqlValue, BTreeSet<i32>);
+    pairs!(i64; i32, String, i64, Vec<u8>, Option<i32>, Vec<i32>, CqlValue, BTreeSet<i32>);
+    pairs!(Vec<u8>; i32, String, i64, Vec<u8>, Option<i32>, Vec<i32>, CqlValue, BTreeSet<i32>);
+    pairs!(Option<i32>; i32, String, i64, Vec<u8>, Option<i32>, Vec<i32>, CqlValue, BTreeSet<i32>);
+    pairs!(Vec<i32>; i32, String, i64, Vec<u8>, Option<i32>, Vec<i32>, CqlValue, BTreeSet<i32>);
+    pairs!(CqlValue; i32, String, i64, Vec<u8>, Option<i32>, Vec<i32>, CqlValue, BTreeSet<i32>);
+    pairs!(BTreeSet<i32>; i32, String, i64, Vec<u8>, Option<i32>, Vec<i32>, CqlValue, BTreeSet<i32>);
+    v.push(row_entry::<()>());
+    v.push(row_entry::<(i32, String, Vec<u8>)>());
+    v.push(row_entry::<(i32, i32, i32)>());
+    v.push(row_entry::<(Option<i32>, Vec<String>, CqlValue)>());
+    v.push(row_entry::<(String, i64, bool, f64)>());
+    v.push(row_entry::<I16Tuple>());
+    v
 }
